@@ -109,6 +109,9 @@ func runPipelined(c hCase, ls hRun) ([]byte, string) {
 	}
 	_, fin := w.Finish()
 	if !fin {
+		if w.Deadlock != "" {
+			return nil, "DEADLOCK:" + w.Deadlock
+		}
 		return nil, "pipelined run: watchdog while finishing"
 	}
 	if p := r.Log.Panicked(); p != "" {
@@ -119,6 +122,9 @@ func runPipelined(c hCase, ls hRun) ([]byte, string) {
 
 func c04Run(c hCase) Verdict {
 	ls := runLockstep(c)
+	if ls.deadlock != "" {
+		return failf("deadlock", "%s\nhistory: %v", trimTo(ls.deadlock, 2500), cmdNames(c.Cmds))
+	}
 	if ls.incon != "" {
 		return Verdict{Inconclusive: ls.incon}
 	}
@@ -159,6 +165,9 @@ func c04Run(c hCase) Verdict {
 	}
 	// (b) metamorphic: pipelined / segmented == lock-step
 	out, incon := runPipelined(c, ls)
+	if strings.HasPrefix(incon, "DEADLOCK:") {
+		return failf("deadlock", "pipelined run of %v: the server is deadlocked:\n%s", cmdNames(c.Cmds), trimTo(incon[9:], 2500))
+	}
 	if strings.HasPrefix(incon, "PANIC:") {
 		return failf("panic", "pipelined run: server logged a panic: %s", incon[6:])
 	}
@@ -328,7 +337,7 @@ func c04SchedRun(c c04SchedCase) Verdict {
 	}
 	_, fin := w.Finish()
 	if !fin {
-		return Verdict{Inconclusive: "watchdog while finishing"}
+		return finishFail(w)
 	}
 	if p := r.Log.Panicked(); p != "" {
 		return failf("panic", "server logged a panic: %s", p)
